@@ -5,7 +5,9 @@ package main
 // point to widen the read-modify-write windows (stress).
 
 import (
+	"bytes"
 	"runtime"
+	"strconv"
 	"sync"
 	"time"
 
@@ -13,9 +15,66 @@ import (
 	"verif/harness/lib"
 )
 
+// goid: the id of the calling goroutine (from the first line of its stack trace).  The yield
+// points are also reached by the server's own background goroutines (label indexing after an
+// ingest); only the goroutine that issues request 1 is to be held.
+func goid() int64 {
+	var buf [64]byte
+	n := runtime.Stack(buf[:], false)
+	f := bytes.Fields(buf[:n])
+	if len(f) < 2 {
+		return -1
+	}
+	id, err := strconv.ParseInt(string(f[1]), 10, 64)
+	if err != nil {
+		return -1
+	}
+	return id
+}
+
+// goroutineState: the wait reason the runtime reports for goroutine id ("" when it is gone).
+func goroutineState(id int64) string {
+	buf := make([]byte, 1<<20)
+	for {
+		n := runtime.Stack(buf, true)
+		if n < len(buf) {
+			buf = buf[:n]
+			break
+		}
+		buf = make([]byte, 2*len(buf))
+	}
+	head := []byte("goroutine " + strconv.FormatInt(id, 10) + " [")
+	i := bytes.Index(buf, head)
+	for i > 0 && buf[i-1] != '\n' {
+		j := bytes.Index(buf[i+1:], head)
+		if j < 0 {
+			return ""
+		}
+		i += 1 + j
+	}
+	if i < 0 {
+		return ""
+	}
+	rest := buf[i+len(head):]
+	if k := bytes.IndexByte(rest, ']'); k >= 0 {
+		return string(rest[:k])
+	}
+	return ""
+}
+
+func mutexWait(state string) bool {
+	for _, w := range []string{"sync.Mutex.Lock", "sync.RWMutex.Lock", "sync.RWMutex.RLock", "semacquire"} {
+		if len(state) >= len(w) && state[:len(w)] == w {
+			return true
+		}
+	}
+	return false
+}
+
 type hookCtl struct {
 	mu      sync.Mutex
 	armed   string
+	armedG  int64
 	parked  chan struct{}
 	release chan struct{}
 	jitter  bool
@@ -33,7 +92,7 @@ func (c *hookCtl) install(rng *lib.Rand) {
 func (c *hookCtl) callback(site string) {
 	c.mu.Lock()
 	c.hits[site]++
-	if c.armed == site {
+	if c.armed == site && c.armedG == goid() {
 		c.armed = ""
 		p, r := c.parked, c.release
 		c.mu.Unlock()
@@ -59,11 +118,12 @@ func (c *hookCtl) callback(site string) {
 	}
 }
 
-// arm: the next request to reach site is held there; returns (parked, release).
-func (c *hookCtl) arm(site string) (parked chan struct{}, release chan struct{}) {
+// arm: goroutine g is held when it reaches site; returns (parked, release).
+func (c *hookCtl) arm(site string, g int64) (parked chan struct{}, release chan struct{}) {
 	c.mu.Lock()
 	defer c.mu.Unlock()
 	c.armed = site
+	c.armedG = g
 	c.parked = make(chan struct{})
 	c.release = make(chan struct{})
 	return c.parked, c.release
@@ -91,18 +151,26 @@ func (c *hookCtl) hitCount(site string) int {
 type forcedResult struct {
 	reached bool // A reached the yield point
 	blocked bool // B could not finish while A was held
+	hung    bool // after the release the requests still did not finish: deadlock
 	okA     bool
 	okB     bool
 }
 
 const blockedAfter = 4 * time.Second
+const hungAfter = 8 * time.Second // nothing in an episode takes more than milliseconds unless it waits on a mutex forever
 
 // runForced starts a, waits until it is held at site, runs b, then releases a.
 func runForced(site string, a, b func() bool) forcedResult {
 	var res forcedResult
-	parked, release := ctl.arm(site)
 	doneA := make(chan bool, 1)
-	go func() { doneA <- a() }()
+	armed := make(chan [2]chan struct{}, 1)
+	go func() {
+		p, r := ctl.arm(site, goid())
+		armed <- [2]chan struct{}{p, r}
+		doneA <- a()
+	}()
+	pr := <-armed
+	parked, release := pr[0], pr[1]
 	select {
 	case <-parked:
 		res.reached = true
@@ -117,32 +185,57 @@ func runForced(site string, a, b func() bool) forcedResult {
 		fatal("request did not reach yield point %s within 20 s", site)
 	}
 	doneB := make(chan bool, 1)
-	go func() { doneB <- b() }()
-	select {
-	case ok := <-doneB:
-		res.okB = ok
-		close(release)
-		res.okA = <-doneA
-		return res
-	case <-time.After(blockedAfter):
-		res.blocked = true
+	gidB := make(chan int64, 1)
+	go func() { gidB <- goid(); doneB <- b() }()
+	idB := <-gidB
+	// request 2 is blocked when its goroutine waits on a mutex at two looks 100 ms apart while
+	// request 1 is held and nothing else runs (or, failing that, when it has not finished in time)
+	waits := 0
+	t0 := time.Now()
+wait:
+	for {
+		select {
+		case ok := <-doneB:
+			res.okB = ok
+			close(release)
+			select {
+			case res.okA = <-doneA:
+			case <-time.After(hungAfter):
+				res.hung = true
+			}
+			return res
+		case <-time.After(100 * time.Millisecond):
+			if mutexWait(goroutineState(idB)) {
+				waits++
+			} else {
+				waits = 0
+			}
+			if waits >= 2 || time.Since(t0) > blockedAfter {
+				res.blocked = true
+				break wait
+			}
+		}
 	}
 	close(release)
-	select {
-	case res.okA = <-doneA:
-	case <-time.After(30 * time.Second):
-		fatal("held request did not finish after release at %s", site)
-	}
-	select {
-	case res.okB = <-doneB:
-	case <-time.After(30 * time.Second):
-		fatal("blocked request did not finish after release at %s", site)
+	deadline := time.After(hungAfter)
+	gotA, gotB := false, false
+	for !(gotA && gotB) {
+		select {
+		case res.okA = <-doneA:
+			gotA = true
+		case res.okB = <-doneB:
+			gotB = true
+		case <-deadline:
+			res.hung = true
+			return res
+		}
 	}
 	return res
 }
 
-// runStress runs the n requests concurrently with random start skews; returns which succeeded.
-func runStress(rng *lib.Rand, reqs []func() bool) []bool {
+// runStress runs the n requests concurrently with random start skews; returns which succeeded,
+// or hung when they did not all finish.
+func runStress(rng *lib.Rand, reqs []func() bool) (acked []bool, hung bool) {
 	n := len(reqs)
 	ok := make([]bool, n)
 	skews := make([]time.Duration, n)
@@ -173,7 +266,14 @@ func runStress(rng *lib.Rand, reqs []func() bool) []bool {
 	}
 	ctl.setJitter(true)
 	close(start)
-	wg.Wait()
+	done := make(chan struct{})
+	go func() { wg.Wait(); close(done) }()
+	select {
+	case <-done:
+	case <-time.After(hungAfter):
+		ctl.setJitter(false)
+		return nil, true
+	}
 	ctl.setJitter(false)
-	return ok
+	return ok, false
 }
